@@ -1301,6 +1301,14 @@ func main() {
 	// (4) JSON documents
 	nJ := 5200 * scale
 	pl := pool()
+	alwaysKind := map[int]bool{}
+	seenKind := map[string]bool{}
+	for pi, repl := range pl {
+		if k := kindOf(repl); !seenKind[k] {
+			seenKind[k] = true
+			alwaysKind[pi] = true
+		}
+	}
 	emitted := 0
 	for emitted < nJ {
 		rng, _ := r.Rng.Fork()
@@ -1326,9 +1334,11 @@ func main() {
 
 				continue
 			}
-			for _, repl := range pl {
-				// in the quick tier a sample of the pool per node; every kind is hit many times over the run
-				if scale == 1 && !rng.Chance(1, 6) {
+			for pi, repl := range pl {
+				// every node is replaced by one value of EVERY JSON kind (null, bool, number, string, array,
+				// object); of the other pool values (syntax classes of the strings, shapes of arrays and
+				// objects) the quick tier takes a sample per node
+				if !alwaysKind[pi] && scale == 1 && !rng.Chance(1, 9) {
 					continue
 				}
 				b.emit(line(replaceAt(seed, p, repl, false)), "kind:"+kindOf(repl))
